@@ -15,6 +15,7 @@ package main
 import (
 	"fmt"
 	"os"
+	"regexp"
 	"sort"
 	"strconv"
 	"strings"
@@ -41,6 +42,7 @@ type opCase struct {
 	fails  []c10lab.Fail
 	keepUniverse bool
 	idx int
+	rawOp, rawVars string // corpus: operation given as text
 }
 
 type worker struct {
@@ -206,29 +208,36 @@ func processOp(w *worker, oc *opCase, plan orderPlan, rseed uint64) {
 			oc.op, oc.kinds = c10lab.GenDeferOperation(r, lab.Config, u)
 		}
 	}
-	text := oc.op.Text()
-	vars := oc.op.VariablesJSON()
-	nd := c10lab.StripDefer(oc.op)
-	c10lab.PruneVars(nd)
-	ndText := nd.Text()
-	iff := c10lab.DeferIfFalse(oc.op)
-	c10lab.PruneVars(iff)
-	iffText := iff.Text()
+	var text, vars, ndText, iffText, ndName, iffName string
+	if oc.rawOp != "" {
+		text, vars = oc.rawOp, oc.rawVars
+		ndText, iffText = stripDeferText(text), ifFalseText(text)
+		oc.op = &fl.Operation{}
+	} else {
+		text = oc.op.Text()
+		vars = oc.op.VariablesJSON()
+		nd := c10lab.StripDefer(oc.op)
+		c10lab.PruneVars(nd)
+		ndText, ndName = nd.Text(), nd.Name
+		iff := c10lab.DeferIfFalse(oc.op)
+		c10lab.PruneVars(iff)
+		iffText, iffName = iff.Text(), iff.Name
+	}
 
 	rf := &refs{}
-	if m, err := lab.Mono(ndText, nd.Name, []byte(vars)); err != nil {
+	if m, err := lab.Mono(ndText, ndName, []byte(vars)); err != nil {
 		rf.monoInvalid = err.Error()
 	} else {
 		rf.mono, rf.monoErrors, rf.monoInvalid = m.Data, m.NErrors, m.Invalid
 	}
-	gwRun := lab.Execute(ndText, nd.Name, []byte(vars), nil, 8*time.Second)
+	gwRun := lab.Execute(ndText, ndName, []byte(vars), nil, 8*time.Second)
 	gws := c10lab.StreamOf(gwRun)
 	if len(gws.Frames) != 1 || gws.Frames[0].ParseErr != "" {
 		rf.gwErr = "no single frame: " + gws.ExecErr
 	} else {
 		rf.gw, rf.gwRaw = gws.Frames[0].Data, string(gws.Frames[0].Raw)
 	}
-	ifRun := lab.Execute(iffText, iff.Name, []byte(vars), nil, 8*time.Second)
+	ifRun := lab.Execute(iffText, iffName, []byte(vars), nil, 8*time.Second)
 	ifs := c10lab.StreamOf(ifRun)
 	var opFails []c10lab.Fail
 	if rf.gwErr == "" {
@@ -362,6 +371,8 @@ func main() {
 		corrMode(a)
 	case "shrink":
 		shrinkMode(a)
+	case "replay":
+		replayMode(a)
 	default:
 		fmt.Fprintln(os.Stderr, "unknown mode", mode)
 		os.Exit(2)
@@ -751,9 +762,69 @@ func shrinkMode(a map[string]string) {
 	fmt.Println("op:", cur.Text())
 	fmt.Println("vars:", cur.VariablesJSON())
 	fmt.Println("universe:", u.Sexp())
+	fmt.Println("CORPUS " + common.L("c10case", common.L("cfg", q(oc.cfg)), u.Sexp(), common.L("op", q(cur.Text())), common.L("vars", q(cur.VariablesJSON())), common.L("note", q(target))))
 	t := &opCase{cfg: oc.cfg, useed: oc.useed, harsh: oc.harsh, op: cur, keepUniverse: true}
 	processOp(w, t, plan, 1)
 	for _, rep := range t.report {
 		fmt.Println(rep)
+	}
+}
+
+// ---------------------------------------------------------------- corpus replay
+
+var deferRe = regexp.MustCompile(`@defer(\([^)]*\))?`)
+
+// stripDeferText / ifFalseText: the text-level twins of StripDefer / DeferIfFalse for corpus
+// operations (which use no variable in @defer).
+func stripDeferText(op string) string { return deferRe.ReplaceAllString(op, "") }
+func ifFalseText(op string) string   { return deferRe.ReplaceAllString(op, "@defer(if: false)") }
+
+// replay: every line of the corpus file is
+//
+//	(c10case (cfg "name") UNIVERSE (op "text") (vars "json") (note "..."))
+func replayMode(a map[string]string) {
+	data, err := os.ReadFile(a["in"])
+	if err != nil {
+		fmt.Fprintln(os.Stderr, err)
+		os.Exit(2)
+	}
+	out := common.NewOut(a["out"])
+	defer out.Close()
+	orders := common.ArgInt(a, "orders", 4)
+	w := newWorker(c10lab.ConfigNames)
+	defer w.exec.Close()
+	for _, line := range strings.Split(string(data), "\n") {
+		line = strings.TrimSpace(line)
+		if line == "" || strings.HasPrefix(line, ";") {
+			continue
+		}
+		x, err := fl.ParseSexp(line)
+		if err != nil || x.Head() != "c10case" || len(x.List) < 5 {
+			fmt.Fprintln(os.Stderr, "bad corpus line:", err)
+			os.Exit(2)
+		}
+		cfg := x.List[1].List[1].Str
+		u, err := c10lab.UniverseOfSexp(x.List[2])
+		if err != nil {
+			fmt.Fprintln(os.Stderr, "bad corpus universe:", err)
+			os.Exit(2)
+		}
+		lab := w.labs[cfg]
+		if err := lab.SetUniverse(u); err != nil {
+			fmt.Fprintln(os.Stderr, "set universe:", err)
+			os.Exit(2)
+		}
+		oc := &opCase{cfg: cfg, keepUniverse: true, rawOp: x.List[3].List[1].Str, rawVars: x.List[4].List[1].Str}
+		processOp(w, oc, orderPlan{maxOrders: orders, allIfLE: 3}, 1)
+		for _, l := range oc.lines {
+			out.Line(l)
+		}
+		if rp, ok := a["report"]; ok {
+			f, _ := os.OpenFile(rp, os.O_APPEND|os.O_CREATE|os.O_WRONLY, 0o644)
+			for _, r := range oc.report {
+				fmt.Fprintln(f, r)
+			}
+			f.Close()
+		}
 	}
 }
